@@ -29,7 +29,7 @@ from ._exceptions import UnboundSignal
 from ._utils import qualified_name
 
 T_Event = TypeVar("T_Event", bound="Event")
-bound_signals = WeakKeyDictionary[Hashable, "Signal[Any]"]()
+bound_signals = WeakKeyDictionary[Hashable, "dict[str, Signal[Any]]"]()
 
 
 class SignalQueueFull(UserWarning):
@@ -97,13 +97,13 @@ class Signal(Generic[T_Event]):
             return self
 
         try:
-            return bound_signals[instance]
+            return bound_signals[instance][self._topic]
         except KeyError:
             bound_signal = Signal(self.event_class)
             bound_signal._topic = self._topic
             bound_signal._instance = weakref.ref(instance)
             bound_signal._send_streams = []
-            bound_signals[instance] = bound_signal
+            bound_signals.setdefault(instance, {})[self._topic] = bound_signal
             return bound_signal
 
     def __set_name__(self, owner: Any, name: str) -> None:
